@@ -262,9 +262,20 @@ static void run_list(const vector<string>& tokens, vt::Rng& r, int ctor) {
     vector<const char*> argv;
     for (auto& t : tokens) argv.push_back(t.c_str());
     a = new Arguments(argv.data(), argv.size());
-  } else {
+  } else if (ctor == 2) {
     vector<string> copy = tokens;
     a = new Arguments(std::move(copy));
+  } else {
+    // the one-string command line: usable when no token needs quoting (tokenisation itself is decided under C08)
+    bool simple = !tokens.empty();
+    for (auto& t : tokens)
+      if (t.empty() || t.find_first_of(" \t\n'\"\\") != string::npos) simple = false;
+    if (simple) {
+      string text;
+      for (size_t i = 0; i < tokens.size(); i++) text += (i ? string(1 + r.below(3), ' ') : string()) + tokens[i];
+      a = new Arguments(text);
+    } else
+      a = new Arguments(tokens);
   }
   vector<string> pos;
   for (auto& p : a->positional) pos.push_back(p.text);
@@ -370,7 +381,7 @@ int main(int argc, char** argv) {
         if ((int)(counter++ % nshards) == shard) {
           vector<string> tokens;
           for (int i : idx) tokens.push_back(GRAMMAR[i]);
-          run_list(tokens, r, (int)r.below(3));
+          run_list(tokens, r, (int)r.below(4));
         }
         int i = len - 1;
         while (i >= 0 && ++idx[i] == G) idx[i--] = 0;
@@ -381,7 +392,7 @@ int main(int argc, char** argv) {
     for (int k = 0; k < 200 / nshards + 1; k++) {
       vector<string> tokens;
       for (int n = (int)r.range(4, 8); n > 0; n--) tokens.push_back(GRAMMAR[r.below(G)]);
-      run_list(tokens, r, (int)r.below(3));
+      run_list(tokens, r, (int)r.below(4));
     }
   } else {
     long lo = atol(argv[3]), hi = atol(argv[4]);
